@@ -27,7 +27,10 @@ use std::cell::UnsafeCell;
 use std::collections::VecDeque;
 use std::fmt;
 use std::task::Waker;
+#[cfg(not(all(excsn_fibre_verif, not(loom))))]
 use std::time::Instant;
+#[cfg(all(excsn_fibre_verif, not(loom)))]
+use crate::internal::sync::Instant;
 
 use crate::internal::sync::{
   fence, thread, Arc, AtomicBool, AtomicU8, AtomicUsize, Ordering, Thread,
